@@ -302,6 +302,11 @@ func (o *ObjectSchema) getFieldReflection(propertyID string, v reflect.Value, pr
 			val = val.Elem()
 		}
 	}
+	if (val.Kind() == reflect.Slice || val.Kind() == reflect.Map) && val.IsNil() && !property.Required() {
+		// This is what Unserialize leaves in the field of an absent list or map property: not set.
+		// For a required property, nil keeps meaning the empty list or map.
+		return nil
+	}
 	if val.Interface() == nil {
 		return nil
 	}
